@@ -151,6 +151,9 @@ func ruleC18T3T4(r *Run) {
 	if wl == nil || rl == nil || rec == nil {
 		return
 	}
+	if w, _ := p.forwardingWrapperOf(rec); w != nil {
+		rec = w // reconnectLocked(old): the loops call the wrapper
+	}
 	// T3
 	{
 		name := fnName(wl)
@@ -353,6 +356,42 @@ func ruleC18T6(r *Run) {
 				okHs = false
 			}
 		}
+		// the attempt (connect + handshake read) lives in a helper that hands the connection back: the store is guarded
+		// by the helper's nil error, and the helper returns a connection only after both calls returned nil on it
+		if ex, isEx := canonVal(st.Val).(*ssa.Extract); isEx && !okHs {
+			if hc, isCall := ex.Tuple.(*ssa.Call); isCall {
+				if h := hc.Call.StaticCallee(); h != nil && p.Analysed(h) && guardedByNilErr(hc, st) {
+					good, any := true, false
+					allInstrs(h, func(ins ssa.Instruction) {
+						ret, isRet := ins.(*ssa.Return)
+						if !isRet {
+							return
+						}
+						rs := retResults(ret)
+						if ex.Index >= len(rs) || isNilConst(rs[ex.Index]) {
+							return
+						}
+						any = true
+						v := canonVal(rs[ex.Index])
+						okRead, okConn := false, false
+						for _, rd := range findCalls(h, false, "/transport.Transport.Read", "/transport.Reader.Read") {
+							if c, isC := rd.(*ssa.Call); isC && canonVal(c.Call.Value) == v && guardedByNilErr(c, ret) {
+								okRead = true
+							}
+						}
+						for _, cn := range findCalls(h, false, rcPkg+".Connector.Connect") {
+							if c, isC := cn.(*ssa.Call); isC && guardedByNilErr(c, ret) {
+								okConn = true
+							}
+						}
+						if !okRead || !okConn {
+							good = false
+						}
+					})
+					okHs = good && any
+				}
+			}
+		}
 	}
 	r.Check(name+" installs only a handshaken connection", okHs, posOf(p, st), name, "Transport.transport may be replaced only after Connect returned nil and a handshake Read on the new connection returned nil")
 }
@@ -366,27 +405,60 @@ func ruleC18T7(r *Run, le *LockEngine) {
 	}
 	name := fnName(wr)
 	var reg *ssa.MapUpdate
-	var del ssa.Instruction // the delete itself, or the defer of a closure that performs it
-	allInstrs(wr, func(ins ssa.Instruction) {
-		if mu, ok := ins.(*ssa.MapUpdate); ok {
-			if u, isU := mu.Map.(*ssa.UnOp); isU && fieldKeyOfAddr(u.X) == rcPkg+".Transport.writeResCh" {
-				reg = mu
+	var regSite ssa.Instruction  // the registration as seen from writeReqRes: the map update, or the call of the helper doing it
+	var regKey, regVal ssa.Value // key and stored channel in writeReqRes' own terms
+	var del ssa.Instruction      // the delete itself, the defer of a closure that performs it, or the call of a helper doing it
+	isTable := func(m ssa.Value) bool {
+		u, isU := m.(*ssa.UnOp)
+		return isU && fieldKeyOfAddr(u.X) == rcPkg+".Transport.writeResCh"
+	}
+	hasDelete := func(fn *ssa.Function) bool {
+		found := false
+		allInstrs(fn, func(x ssa.Instruction) {
+			if c, isCall := x.(*ssa.Call); isCall {
+				if b, isB := c.Call.Value.(*ssa.Builtin); isB && b.Name() == "delete" && len(c.Call.Args) > 0 && isTable(c.Call.Args[0]) {
+					found = true
+				}
 			}
+		})
+		return found
+	}
+	argFor := func(cc *ssa.CallCommon, cal *ssa.Function, v ssa.Value) ssa.Value {
+		for i, prm := range cal.Params {
+			if canonVal(v) == ssa.Value(prm) && i < len(cc.Args) {
+				return cc.Args[i]
+			}
+		}
+		return nil
+	}
+	allInstrs(wr, func(ins ssa.Instruction) {
+		if mu, ok := ins.(*ssa.MapUpdate); ok && isTable(mu.Map) {
+			reg, regSite, regKey, regVal = mu, mu, mu.Key, mu.Value
 		}
 		if c, ok := ins.(*ssa.Call); ok {
-			if b, isB := c.Call.Value.(*ssa.Builtin); isB && b.Name() == "delete" {
+			if b, isB := c.Call.Value.(*ssa.Builtin); isB && b.Name() == "delete" && len(c.Call.Args) > 0 && isTable(c.Call.Args[0]) {
 				del = ins
 			}
-		}
-		if d, ok := ins.(*ssa.Defer); ok {
-			if cl := closureOf(d.Call.Value); cl != nil {
-				allInstrs(cl, func(x ssa.Instruction) {
-					if c, isCall := x.(*ssa.Call); isCall {
-						if b, isB := c.Call.Value.(*ssa.Builtin); isB && b.Name() == "delete" {
-							del = ins
+			// forwarding helpers (registerWriteRes(id, ch), unregisterWriteRes(id))
+			if cal := c.Call.StaticCallee(); cal != nil && p.Analysed(cal) && cal.Blocks != nil {
+				allInstrs(cal, func(x ssa.Instruction) {
+					if mu, isMu := x.(*ssa.MapUpdate); isMu && isTable(mu.Map) && dominatesAllReturns(mu) {
+						if k, v := argFor(&c.Call, cal, mu.Key), argFor(&c.Call, cal, mu.Value); k != nil && v != nil {
+							reg, regSite, regKey, regVal = mu, ins, k, v
 						}
 					}
 				})
+				if hasDelete(cal) {
+					del = ins
+				}
+			}
+		}
+		if d, ok := ins.(*ssa.Defer); ok {
+			if cl := closureOf(d.Call.Value); cl != nil && hasDelete(cl) {
+				del = ins
+			}
+			if cal := d.Call.StaticCallee(); cal != nil && p.Analysed(cal) && hasDelete(cal) {
+				del = ins
 			}
 		}
 	})
@@ -466,23 +538,23 @@ func ruleC18T7(r *Run, le *LockEngine) {
 		}
 	}
 	r.Check(name+" queuing can be abandoned", queue != nil && abandon, p.pos(wr.Pos()), name, "the request is queued with a select that also watches a Done() channel (directly or in the helper): once the write loop is gone a plain send blocks the caller as soon as the queue is full")
-	ok := reg != nil && queue != nil && dominatesInstr(reg, queue)
+	ok := reg != nil && queue != nil && dominatesInstr(regSite, queue)
 	okCap := false
 	if reg != nil {
-		if mk, isMk := canonVal(reg.Value).(*ssa.MakeChan); isMk {
+		if mk, isMk := canonVal(regVal).(*ssa.MakeChan); isMk {
 			if k, isK := constInt(mk.Size); isK && k >= 1 {
 				okCap = true
 			}
 		}
 		h := le.HeldAt(reg)
-		ok = ok && h[wr.Params[0].Name()+".writeResMu"] == modeW
+		ok = ok && len(reg.Parent().Params) > 0 && h[reg.Parent().Params[0].Name()+".writeResMu"] == modeW
 	}
 	r.Check(name+" registers before queuing", ok && okCap, p.pos(wr.Pos()), name, fmt.Sprintf("registration under writeResMu dominates the queuing: %v; channel buffered: %v", ok, okCap))
-	r.Check(name+" removes its entry", del != nil && reg != nil && dominatesInstr(reg, del), p.pos(wr.Pos()), name, "the entry must be deleted after the result was read (or the wait abandoned)")
+	r.Check(name+" removes its entry", del != nil && reg != nil && dominatesInstr(regSite, del), p.pos(wr.Pos()), name, "the entry must be deleted after the result was read (or the wait abandoned)")
 	// the same id keys registration and request
 	okID := false
 	if reg != nil && queue != nil {
-		idv := canonVal(reg.Key)
+		idv := canonVal(regKey)
 		wq := p.Named(rcPkg, "writeReq")
 		for _, lit := range literalsOf(wr, wq) {
 			if v, has := lit.Fields["id"]; has && canonVal(v) == idv {
@@ -506,7 +578,7 @@ func ruleC18T8(r *Run) {
 				closeOld = ins
 			}
 		})
-		conns := findCalls(rec, false, rcPkg+".Connector.Connect")
+		conns := p.callsReaching(rec, 2, rcPkg+".Connector.Connect")
 		ok := closeOld != nil && len(conns) > 0
 		for _, c := range conns {
 			if closeOld == nil || !dominatesInstr(closeOld, c) {
@@ -544,15 +616,21 @@ func ruleC18T10(r *Run) {
 		return
 	}
 	n := 0
+	argIdx := 1
+	if w, pos := p.forwardingWrapperOf(rc); w != nil {
+		if j, ok := pos[1]; ok {
+			rc, argIdx = w, j // reconnectLocked(old): the loops call the wrapper
+		}
+	}
 	for _, site := range p.staticCallSites(rc) {
 		fn := site.Parent()
 		cc := instrCall(site)
-		if len(cc.Args) < 2 {
+		if len(cc.Args) <= argIdx {
 			continue
 		}
 		n++
 		name := fnName(fn)
-		arg := canonVal(cc.Args[1])
+		arg := canonVal(cc.Args[argIdx])
 		ok := false
 		var ioName string
 		allInstrs(fn, func(ins ssa.Instruction) {
@@ -568,7 +646,7 @@ func ruleC18T10(r *Run) {
 				ok = true
 			}
 		})
-		r.Check(name+" reconnect argument", ok, posOf(p, site), name, "reconnect is called with "+pathOf(cc.Args[1]).String()+"; it must be the connection value on which "+ioName+" just failed (a fresh read of Transport.transport is the new connection once the other loop has redialled, and closing it tears the healthy connection down)")
+		r.Check(name+" reconnect argument", ok, posOf(p, site), name, "reconnect is called with "+pathOf(cc.Args[argIdx]).String()+"; it must be the connection value on which "+ioName+" just failed (a fresh read of Transport.transport is the new connection once the other loop has redialled, and closing it tears the healthy connection down)")
 	}
 	if n == 0 {
 		r.Undecided("reconnect call sites", "none found")
